@@ -214,24 +214,14 @@ impl PartialEq for Value {
             (P(left), P(right)) => left == right,
             (C(List(left, _)), C(List(right, _))) => left == right,
             (C(Tuple(left, _)), C(Tuple(right, _))) => {
+                // Tuples are ordered: they are equal when they have the same
+                // fields with equal values in the same order.
                 if left.len() != right.len() {
                     return false;
                 }
-                for (lk, lv) in left.iter() {
-                    let mut found = false;
-                    for (rk, rv) in right.iter() {
-                        if lk == rk {
-                            found = true;
-                            if lv != rv {
-                                return false;
-                            }
-                        }
-                    }
-                    if !found {
-                        return false;
-                    }
-                }
-                true
+                left.iter()
+                    .zip(right.iter())
+                    .all(|((lk, lv), (rk, rv))| lk == rk && lv == rv)
             }
             (F(left), F(right)) => left == right,
             (M(left), M(right)) => left == right,
